@@ -909,8 +909,7 @@ def _rerank(repo, col):
             "df.loc[:, a] = rerank(df.groupby(b)[a])" if grouped else "the helper no longer ranks column a within the groups of b", node=helper.fi.node)
 
 
-def _edges(repo, col):
-    R = "R-C11-edges"
+def _edges(repo, col, R="R-C11-edges"):
     fi = repo.method("View", "_set_inds_in_view")
     ex = idx.expander(repo, fi)
     from sa.terms import fuse_comprehensions as _fuse
@@ -927,7 +926,15 @@ def _edges(repo, col):
     cand = [s for (w, g), s in st.items() if w == "e" and s.value.op == "mcall" and s.value.name == "intersect1d"
             and has_const(s.value, "pre_global_comp_index")]
     if not cand:
-        raise AnalysisError("View._set_inds_in_view: edges of a node-selected view not found")
+        # the edges computed from the two end columns, but no longer intersected with anything
+        loose = [s for (w, g), s in st.items() if w == "e" and has_const(s.value, "pre_global_comp_index") and has_const(s.value, "post_global_comp_index")]
+        if not loose:
+            raise AnalysisError("View._set_inds_in_view: edges of a node-selected view not found")
+        col.bad(R, fi, "edges are intersected with the parent view's edges",
+                f"the edges of a node-selected view are `{loose[0].value.short(90)}`: every edge of the MODULE with both ends in view, also "
+                f"edges the parent view does not contain (edges added after the parent view was created, edges excluded by an earlier "
+                f"`.edge(...)` selection); sub-views then address rows their parent's tables do not have", node=loose[0].node)
+        return
     s = cand[0]
     AND, OTHER = {"&", "logical_and", "*", "multiply"}, {"|", "^", "logical_or", "logical_xor", "+", "add"}
     both = T.find(s.value, lambda x: ((x.op == "binop" and x.name in AND | OTHER) or (x.op == "mcall" and x.name in AND | OTHER)) and
